@@ -13,10 +13,11 @@ from cutplace import errors, validio
 PROPERTY_ID = "C08"
 RULE = (
     "One shared Cid object (delimited; key Text, val Choice, grp Text; IsUnique key; DistinctCount val <= 2; "
-    "DistinctCount grp == 1) and an alphabet of 14 operations: read clean data, read data with a duplicate key, "
+    "DistinctCount grp == 1) and an alphabet of 19 operations: read clean data, read data with a duplicate key, "
     "read data with three distinct values, read and abandon after 1 / 2 rows, read fully without close(), read in "
     "'raise' mode ending in a field error, read in 'continue' mode, validate with limit 0 / 1 / none, write rows "
-    "without close, write and close, write a duplicate - over data sets that share key values and distinct-count "
+    "without close, write and close, write a duplicate, abandon a read and keep it open, leave a reader unclosed and "
+    "keep it, read / write while those kept runs are closed in the middle - over data sets that share key values and distinct-count "
     "values. Every sequence of up to 4 operations is executed exhaustively (quick and thorough); Hypothesis adds "
     "sequences of up to 30 operations with generated data (thorough: more). Oracle (differential): the outcome of "
     "each operation on the shared CID (items, rejections as type/text/row/column/see-also row, final exception) "
@@ -25,11 +26,12 @@ RULE = (
     "operations here, since all data sets share keys); sequences are distinct by construction."
 )
 ASSUMPTIONS = [
-    "operations are executed one after the other (no two readers interleaved on one CID)",
+    "runs are started one after the other; the only interleaving is the late finalisation (close) of an earlier "
+    "abandoned or never closed run in the middle of a later one, as garbage collection may do it",
     "the outcome of an operation on a fresh CID is deterministic (checked: computed twice)",
 ]
 EXHAUSTIVE = True
-EXHAUSTIVE_SCOPE = "all sequences of 1-4 operations over the 14-operation alphabet"
+EXHAUSTIVE_SCOPE = "all sequences of 1-4 operations over the 19-operation alphabet"
 
 CID_ROWS = [
     ["D", "Format", "Delimited"],
@@ -62,26 +64,41 @@ def _describe(item):
     return ["row", list(item)]
 
 
-def _read(cid, rows, mode="yield", take=None, until=None):
+def _finalize(held):
+    """Close everything earlier operations left open (abandoned generators, never closed readers)."""
+    while held:
+        thing = held.pop()
+        try:
+            thing.close()
+        except Exception:
+            pass  # whatever an abandoned run says when it is finally closed is not this run's outcome
+
+
+def _read(cid, rows, mode="yield", take=None, until=None, held=None, keep=False, late_close_after=None):
     out = []
     ended = None
     generator = cutplace.rows(cid, io.StringIO(_text(rows), newline=""), on_error=mode, validate_until=until)
     try:
         for item in generator:
             out.append(_describe(item))
+            if late_close_after is not None and len(out) == late_close_after:
+                _finalize(held)
             if take is not None and len(out) >= take:
                 break
     except Exception as error:
         ended = _describe(error)
     finally:
-        try:
-            generator.close()
-        except Exception as error:
-            ended = ["close-error"] + _describe(error)
+        if keep:
+            held.append(generator)
+        else:
+            try:
+                generator.close()
+            except Exception as error:
+                ended = ["close-error"] + _describe(error)
     return {"items": out, "ended": ended}
 
 
-def _read_noclose(cid, rows):
+def _read_noclose(cid, rows, held=None, keep=False):
     reader = validio.Reader(cid, io.StringIO(_text(rows), newline=""), on_error="yield")
     out = []
     ended = None
@@ -90,6 +107,8 @@ def _read_noclose(cid, rows):
             out.append(_describe(item))
     except Exception as error:
         ended = _describe(error)
+    if keep:
+        held.append(reader)
     return {"items": out, "ended": ended}
 
 
@@ -101,7 +120,7 @@ def _validate(cid, rows, until):
         return {"ended": _describe(error)}
 
 
-def _write(cid, rows, close):
+def _write(cid, rows, close, held=None, late_close_after=None):
     target = io.StringIO()
     out = []
     ended = None
@@ -110,6 +129,8 @@ def _write(cid, rows, close):
     except Exception as error:
         return {"items": [], "ended": ["construct"] + _describe(error), "text": ""}
     for row in rows:
+        if late_close_after is not None and len(out) == late_close_after:
+            _finalize(held)
         try:
             writer.write_row(list(row))
             out.append(["written", list(row)])
@@ -124,21 +145,26 @@ def _write(cid, rows, close):
 
 
 OPS = {
-    "read-clean": lambda cid: _read(cid, CLEAN),
-    "read-dup": lambda cid: _read(cid, DUP),
-    "read-three": lambda cid: _read(cid, THREE),
-    "read-other-group": lambda cid: _read(cid, OTHER_GROUP),
-    "abandon-1": lambda cid: _read(cid, THREE, take=1),
-    "abandon-2": lambda cid: _read(cid, DUP, take=2),
-    "read-noclose": lambda cid: _read_noclose(cid, THREE),
-    "raise-bad": lambda cid: _read(cid, BAD, mode="raise"),
-    "continue-bad": lambda cid: _read(cid, BAD, mode="continue"),
-    "validate-0": lambda cid: _validate(cid, CLEAN, 0),
-    "validate-1": lambda cid: _validate(cid, DUP, 2),
-    "validate-all": lambda cid: _validate(cid, CLEAN, None),
-    "write-noclose": lambda cid: _write(cid, THREE, False),
-    "write-close": lambda cid: _write(cid, CLEAN, True),
-    "write-dup": lambda cid: _write(cid, DUP, True),
+    "read-clean": lambda cid, held: _read(cid, CLEAN),
+    "read-dup": lambda cid, held: _read(cid, DUP),
+    "read-three": lambda cid, held: _read(cid, THREE),
+    "read-other-group": lambda cid, held: _read(cid, OTHER_GROUP),
+    "abandon-1": lambda cid, held: _read(cid, THREE, take=1),
+    "abandon-2": lambda cid, held: _read(cid, DUP, take=2),
+    "abandon-keep": lambda cid, held: _read(cid, THREE, take=1, held=held, keep=True),
+    "read-noclose": lambda cid, held: _read_noclose(cid, THREE),
+    "noclose-keep": lambda cid, held: _read_noclose(cid, CLEAN, held=held, keep=True),
+    "raise-bad": lambda cid, held: _read(cid, BAD, mode="raise"),
+    "continue-bad": lambda cid, held: _read(cid, BAD, mode="continue"),
+    "validate-0": lambda cid, held: _validate(cid, CLEAN, 0),
+    "validate-1": lambda cid, held: _validate(cid, DUP, 2),
+    "validate-all": lambda cid, held: _validate(cid, CLEAN, None),
+    "write-noclose": lambda cid, held: _write(cid, THREE, False),
+    "write-close": lambda cid, held: _write(cid, CLEAN, True),
+    "write-dup": lambda cid, held: _write(cid, DUP, True),
+    # an earlier abandoned / never closed run is finalized (garbage collected, closed) in the middle of this run
+    "lateclose-read-dup": lambda cid, held: _read(cid, DUP, held=held, late_close_after=2),
+    "lateclose-write-dup": lambda cid, held: _write(cid, DUP, True, held=held, late_close_after=2),
 }
 OP_NAMES = sorted(OPS)
 
@@ -146,8 +172,8 @@ OP_NAMES = sorted(OPS)
 def _fresh_outcomes():
     outcomes = {}
     for name in OP_NAMES:
-        first = OPS[name](cidlib.load_cid(CID_ROWS))
-        second = OPS[name](cidlib.load_cid(CID_ROWS))
+        first = OPS[name](cidlib.load_cid(CID_ROWS), [])
+        second = OPS[name](cidlib.load_cid(CID_ROWS), [])
         if first != second:
             raise RuntimeError("operation %s is not deterministic on a fresh CID" % name)
         outcomes[name] = first
@@ -156,9 +182,10 @@ def _fresh_outcomes():
 
 def run_sequence(sub, names, fresh):
     cid = cidlib.load_cid(CID_ROWS)
+    held = []
     for position, name in enumerate(names):
         try:
-            actual = OPS[name](cid)
+            actual = OPS[name](cid, held)
         except Exception as error:
             sub.fail("C08|harness|%s|%s" % (name, type(error).__name__), {"ops": list(names)}, repr(error))
             return
@@ -169,7 +196,9 @@ def run_sequence(sub, names, fresh):
             sub.fail("C08|differs|%s|%s" % (_kind(name), culprit), {"ops": list(names)},
                      "operation %d (%s) after %s: on the shared CID %r, on a fresh CID %r" % (
                          position + 1, name, list(names[:position]), actual, fresh[name]))
+            _finalize(held)
             return
+    _finalize(held)
 
 
 def _kind(name):
